@@ -73,6 +73,22 @@ class Source:
                 return i
             i = j - len(m.group(0))
 
+    def _with_attrs(self, start):
+        """extend an item start backwards over the attribute / doc-comment lines directly above it"""
+        ls = self.text.rfind("\n", 0, start) + 1
+        if self.text[ls:start].strip() != "":
+            return start
+        cur = ls
+        while cur > 0:
+            pe = cur - 1
+            ps = self.text.rfind("\n", 0, pe) + 1
+            line = self.text[ps:pe].strip()
+            if line.startswith("#[") or line.startswith("///") or line.startswith("//!"):
+                cur = ps
+            else:
+                break
+        return cur if cur < ls else start
+
     def find_fn(self, name, lo=0, hi=None, depth=None):
         hi = len(self.masked) if hi is None else hi
         hits = []
@@ -94,7 +110,7 @@ class Source:
             end = ob + 1
         else:
             end = lex.match_close(self.masked, ob) + 1
-        return start, end
+        return self._with_attrs(start), end
 
     def find_method(self, impl_header, name):
         want = " ".join(impl_header.split())
@@ -134,7 +150,7 @@ class Source:
         else:
             end = lex.match_close(self.masked, t) + 1
             # tuple struct `struct X(..);`
-        return start, end
+        return (self._with_attrs(start) if kind != "macro" else start), end
 
     def find(self, spec):
         spec = spec.strip()
